@@ -345,8 +345,7 @@ class Inliner:
         if m is None:
             return None
         loc = _helper_locals(hh)
-        if loc & set(m):
-            return None          # a parameter is rebound inside the helper
+        rebound = sorted(loc & set(m))
         # the arguments are evaluated once, in order, before the body: when one of them has effects, every argument that
         # is not a plain name / constant is first bound to a temporary (in call order)
         pre = []
@@ -367,6 +366,9 @@ class Inliner:
                 m[p] = ast.Name(id=tmp, ctx=ast.Load())
         self.n += 1
         ren = {x: "__h%d_%s" % (self.n, x) for x in loc}
+        # a parameter that the helper rebinds is an ordinary local that starts as the argument
+        for p in rebound:
+            pre.append(ast.Assign(targets=[ast.Name(id=ren[p], ctx=ast.Store())], value=m.pop(p)))
         for n in ast.walk(hh):
             if isinstance(n, ast.Name) and n.id in ren:
                 n.id = ren[n.id]
@@ -774,7 +776,7 @@ def control_flow(fn):
             b = _orient(f)
             _flatten_else(f)
             c = _orient_exits(f)
-            d = _hoist_common(f) | _merge_tail_returns(f)
+            d = _hoist_common(f) | _merge_tail_returns(f) | _sink_common_store(f)
             if not (a or b or c or d):
                 break
         _guard_to_nested(f)
@@ -935,6 +937,58 @@ def _fix_empty(body, i):
     elif not st.body:
         st.test = negate(st.test)
         st.body, st.orelse = st.orelse, []
+
+
+_ss_counter = [0]
+
+
+def _sink_common_store(scope):
+    """An if / elif chain every arm of which either leaves (raise / return) or ends with a store into the SAME slot
+    `B[k] = e_i`: the arms bind a temporary and the store is written once after the chain."""
+    changed = False
+    for owner, fld in _scope_blocks(scope):
+        body = getattr(owner, fld)
+        for i, st in enumerate(body):
+            if not isinstance(st, ast.If) or not st.orelse:
+                continue
+            arms = []
+            node = st
+            while True:
+                arms.append(node.body)
+                if len(node.orelse) == 1 and isinstance(node.orelse[0], ast.If):
+                    node = node.orelse[0]
+                else:
+                    arms.append(node.orelse)
+                    break
+            stores = []
+            ok = True
+            for a in arms:
+                if not a:
+                    ok = False
+                    break
+                last = a[-1]
+                if isinstance(last, ast.Assign) and len(last.targets) == 1 and isinstance(last.targets[0], ast.Subscript) \
+                        and isinstance(last.targets[0].value, ast.Name) and isinstance(last.targets[0].slice, ast.Name):
+                    stores.append(last)
+                elif exits(a) and isinstance(last, (ast.Raise, ast.Return)):
+                    continue
+                else:
+                    ok = False
+                    break
+            if not ok or len(stores) < 2 or len({ast.dump(x.targets[0]) for x in stores}) != 1:
+                continue
+            tgt = stores[0].targets[0]
+            names = {tgt.value.id, tgt.slice.id}
+            if any(isinstance(n, ast.Name) and n.id in names and isinstance(n.ctx, (ast.Store, ast.Del)) for a in arms for z in a for n in ast.walk(z)):
+                continue
+            _ss_counter[0] += 1
+            tmp = "__ss%d" % _ss_counter[0]
+            for x in stores:
+                x.targets = [ast.Name(id=tmp, ctx=ast.Store())]
+            body.insert(i + 1, ast.copy_location(ast.Assign(targets=[copy.deepcopy(tgt)], value=ast.Name(id=tmp, ctx=ast.Load())), st))
+            changed = True
+            break
+    return changed
 
 
 def _merge_tail_returns(scope):
@@ -1569,8 +1623,11 @@ def _subst_in_simple(s, m):
                         n.value = sub.visit(n.value)
     elif isinstance(s, ast.AugAssign):
         s.value = sub.visit(s.value)
-        if isinstance(s.target, ast.Subscript):
-            s.target.slice = sub.visit(s.target.slice)
+        for n in ast.walk(s.target):
+            if isinstance(n, ast.Subscript):
+                n.slice = sub.visit(n.slice)
+                if not isinstance(n.value, ast.Name):
+                    n.value = sub.visit(n.value)
     elif isinstance(s, (ast.Expr, ast.Return)):
         if s.value is not None:
             s.value = sub.visit(s.value)
@@ -1851,22 +1908,37 @@ def forward_stores(fn):
                         F.hit = True
                         return copy.deepcopy(val)
                     return n
-            for s in body[next(k for k, z in enumerate(body) if z is st) + 1:]:
-                muts = _mutations(s)
-                hit = _invalidates(muts, st.value, "\0") or _invalidates(muts, load, "\0")
-                if isinstance(s, (ast.For, ast.While, ast.If, ast.Try, ast.With, ast.FunctionDef)):
-                    if hit:
-                        if isinstance(s, ast.If):
-                            s.test = F().visit(s.test)
-                        break
-                    F().visit(s)
-                else:
-                    if isinstance(s, (ast.Assign, ast.AugAssign)):
-                        s.value = F().visit(s.value)
-                    elif isinstance(s, (ast.Expr, ast.Return)) and s.value is not None:
-                        s.value = F().visit(s.value)
-                    if hit:
-                        break
+            def fwd(stmts):
+                """replace loads of B[k] by the stored name; False once B, k or the name may have changed"""
+                for s in stmts:
+                    if isinstance(s, ast.If):
+                        s.test = F().visit(s.test)
+                        if _invalidates(_mutations(s.test), st.value, "\0") or _invalidates(_mutations(s.test), load, "\0"):
+                            return False
+                        a_ = fwd(s.body)
+                        b_ = fwd(s.orelse)
+                        if not (a_ and b_):
+                            return False
+                        continue
+                    muts = _mutations(s)
+                    hit = _invalidates(muts, st.value, "\0") or _invalidates(muts, load, "\0")
+                    if isinstance(s, (ast.For, ast.While, ast.Try, ast.With, ast.FunctionDef)):
+                        if hit:
+                            if isinstance(s, ast.For):
+                                s.iter = F().visit(s.iter)
+                            return False
+                        F().visit(s)
+                    else:
+                        if isinstance(s, (ast.Assign, ast.AugAssign)):
+                            s.value = F().visit(s.value)
+                        elif isinstance(s, (ast.Expr, ast.Return)) and s.value is not None:
+                            s.value = F().visit(s.value)
+                        if hit:
+                            return False
+                        if isinstance(s, (ast.Return, ast.Raise, ast.Break, ast.Continue)):
+                            return True
+                return True
+            fwd(body[next(k for k, z in enumerate(body) if z is st) + 1:])
             changed |= F.hit
     ast.fix_missing_locations(fn)
     return changed
@@ -2215,6 +2287,9 @@ def _independent(comp, body, target):
     return not (wa & (rb | wb)) and not (wb & ra)
 
 
+_EDGE_FN = [None]
+
+
 def _edge_pairs(it):
     """'pairs' when the elements handed to add_edges_from are certainly 2-tuples (a display (u, v), or the elements of
     X.edges() without arguments), 'triples' when they are displays (u, v, {...}); None when that cannot be seen."""
@@ -2231,6 +2306,22 @@ def _edge_pairs(it):
         return None
     if isinstance(it, ast.Call) and isinstance(it.func, ast.Attribute) and it.func.attr == "edges" and not it.args and not it.keywords:
         return "pairs"
+    if isinstance(it, ast.Name) and _EDGE_FN[0] is not None:
+        # a list filled by one `L.append(e)` where e is a pair display or the variable of a loop over X.edges()
+        L = it.id
+        fn = _EDGE_FN[0]
+        stores = [n for n in ast.walk(fn) if isinstance(n, ast.Assign) and len(n.targets) == 1 and isinstance(n.targets[0], ast.Name)
+                  and n.targets[0].id == L]
+        if len(stores) == 1 and isinstance(stores[0].value, ast.List) and not stores[0].value.elts:
+            for loop in [n for n in ast.walk(fn) if isinstance(n, ast.For)]:
+                apps = [c for c in ast.walk(loop) if isinstance(c, ast.Call) and isinstance(c.func, ast.Attribute) and c.func.attr == "append"
+                        and _chain(c.func.value) == L and len(c.args) == 1]
+                if len(apps) == 1:
+                    e = apps[0].args[0]
+                    if isinstance(e, ast.Tuple) and len(e.elts) == 2:
+                        return "pairs"
+                    if isinstance(e, ast.Name) and isinstance(loop.target, ast.Name) and loop.target.id == e.id:
+                        return _edge_pairs(loop.iter)
     return None
 
 
@@ -2239,6 +2330,7 @@ def networkx_bulk_calls(fn):
     (no attribute keywords), and iterating `G.nodes()` is iterating `G`.  A `for` over a generator expression is the nested
     loops it abbreviates (a generator is consumed lazily, so the interleaving is the same)."""
     changed = False
+    _EDGE_FN[0] = fn
     for owner, fld in _blocks_of(fn):
         body = getattr(owner, fld)
         new = []
@@ -2324,6 +2416,123 @@ def networkx_bulk_calls(fn):
             outer = inner[0]
             loop.target, loop.iter, loop.body = outer.target, outer.iter, outer.body
             changed = True
+    if changed:
+        ast.fix_missing_locations(fn)
+    return changed
+
+
+def unroll_literal_loops(fn):
+    """`for a, b in ((x1, y1), (x2, y2)): body` over a short literal display of names / constants is the body written once per
+    element (body without break / continue, loop variables not rebound in it and not read afterwards)."""
+    changed = False
+    for owner, fld in _blocks_of(fn):
+        body = getattr(owner, fld)
+        new = []
+        for st in body:
+            ok = isinstance(st, ast.For) and not st.orelse and isinstance(st.iter, (ast.Tuple, ast.List)) and 1 <= len(st.iter.elts) <= 4
+            if ok:
+                tg = [st.target] if isinstance(st.target, ast.Name) else (
+                    list(st.target.elts) if isinstance(st.target, ast.Tuple) and all(isinstance(e, ast.Name) for e in st.target.elts) else None)
+                ok = tg is not None
+            if ok:
+                rows = []
+                for el in st.iter.elts:
+                    vals = [el] if isinstance(st.target, ast.Name) else (list(el.elts) if isinstance(el, ast.Tuple) and len(el.elts) == len(tg) else None)
+                    if vals is None or not all(isinstance(v, (ast.Name, ast.Constant)) for v in vals):
+                        ok = False
+                        break
+                    rows.append(vals)
+            if ok:
+                names = {t.id for t in tg}
+                if any(isinstance(n, (ast.Break, ast.Continue)) for z in st.body for n in ast.walk(z)) or \
+                        any(isinstance(n, ast.Name) and n.id in names and isinstance(n.ctx, (ast.Store, ast.Del)) for z in st.body for n in ast.walk(z)) or \
+                        any(isinstance(n, (ast.Lambda, ast.FunctionDef)) for z in st.body for n in ast.walk(z)):
+                    ok = False
+                total = sum(1 for n in ast.walk(fn) if isinstance(n, ast.Name) and n.id in names and isinstance(n.ctx, ast.Load))
+                inside = sum(1 for z in st.body for n in ast.walk(z) if isinstance(n, ast.Name) and n.id in names and isinstance(n.ctx, ast.Load))
+                ok = ok and total == inside
+            if ok:
+                for vals in rows:
+                    m = {t.id: v for t, v in zip(tg, vals)}
+                    for z in st.body:
+                        zz = copy.deepcopy(z)
+
+                        class S(ast.NodeTransformer):
+                            def visit_Name(self, n):
+                                if n.id in m and isinstance(n.ctx, ast.Load):
+                                    return copy.deepcopy(m[n.id])
+                                return n
+                        new.append(S().visit(zz))
+                changed = True
+            else:
+                new.append(st)
+        setattr(owner, fld, new)
+    if changed:
+        ast.fix_missing_locations(fn)
+    return changed
+
+
+def fuse_list_loops(fn):
+    """`L = []`, a loop whose only use of L is one `L.append(e)`, then `for w in L: body` and nothing else mentions L:
+    the body runs where the element is produced (`w = e; body`) when producing the elements and the body touch different
+    things, so that doing all of one before all of the other is the same as interleaving them."""
+    changed = False
+    for scope in [n for n in ast.walk(fn) if isinstance(n, ast.FunctionDef)]:
+        for owner, fld in _scope_blocks(scope):
+            body = getattr(owner, fld)
+            for i, st in enumerate(body):
+                if not (isinstance(st, ast.Assign) and len(st.targets) == 1 and isinstance(st.targets[0], ast.Name)
+                        and isinstance(st.value, ast.List) and not st.value.elts):
+                    continue
+                L = st.targets[0].id
+                mentions = [n for n in ast.walk(scope) if isinstance(n, ast.Name) and n.id == L]
+                if len(mentions) != 3:
+                    continue
+                prod = cons = None
+                for j in range(i + 1, len(body)):
+                    z = body[j]
+                    if isinstance(z, ast.For) and prod is None and any(isinstance(n, ast.Name) and n.id == L for n in ast.walk(z)) \
+                            and not (isinstance(z.iter, ast.Name) and z.iter.id == L):
+                        prod = j
+                    elif isinstance(z, ast.For) and prod is not None and isinstance(z.iter, ast.Name) and z.iter.id == L and not z.orelse:
+                        cons = j
+                        break
+                if prod is None or cons is None or cons != prod + 1:
+                    continue
+                P, C = body[prod], body[cons]
+                apps = []
+                for owner2, fld2 in _blocks_of(P):
+                    b2 = getattr(owner2, fld2)
+                    for k, y in enumerate(b2):
+                        if isinstance(y, ast.Expr) and isinstance(y.value, ast.Call) and isinstance(y.value.func, ast.Attribute) \
+                                and y.value.func.attr == "append" and isinstance(y.value.func.value, ast.Name) and y.value.func.value.id == L \
+                                and len(y.value.args) == 1:
+                            apps.append((b2, k, y))
+                if len(apps) != 1 or any(isinstance(n, (ast.Break, ast.Continue, ast.Return)) for z in C.body for n in ast.walk(z)):
+                    continue
+                b2, k, y = apps[0]
+                # producing the elements (everything in P except the append) vs the consumer body
+                shadow = copy.deepcopy(P)
+                for owner3, fld3 in _blocks_of(shadow):
+                    setattr(owner3, fld3, [q for q in getattr(owner3, fld3) if not (
+                        isinstance(q, ast.Expr) and isinstance(q.value, ast.Call) and isinstance(q.value.func, ast.Attribute)
+                        and q.value.func.attr == "append" and _chain(q.value.func.value) == L)] or [ast.Pass()])
+                a = _touches([shadow, y.value.args[0]])
+                b = _touches(C.body)
+                if a is None or b is None:
+                    continue
+                ra, wa = a
+                rb, wb = b
+                tn = _names(C.target)
+                wa = {q for x in wa for q in _aliased(x)} - {L}
+                wb = {q for x in wb for q in _aliased(x)} - tn
+                if wa & (rb | wb) or wb & (ra - {L}):
+                    continue
+                b2[k:k + 1] = [ast.Assign(targets=[C.target], value=y.value.args[0])] + C.body
+                del body[cons]
+                del body[i]
+                changed = True
+                break
     if changed:
         ast.fix_missing_locations(fn)
     return changed
@@ -2458,6 +2667,53 @@ def coalesce_copies(fn):
                 stores[y] = 0
                 stores[x] = stores.get(x, 0)      # one store replaced by another
                 loads[x] = loads.get(x, 0) + ny
+                changed = True
+    return changed
+
+
+def takeover_copies(fn):
+    """`x = y` outside any loop, x not mentioned before it and y never mentioned after it (in source order): x simply
+    continues under y's name (what inlining a helper that rebinds its own parameter leaves behind:
+    `__h_kwargs = kwargs; if __h_kwargs is None: __h_kwargs = {}`)."""
+    changed = False
+    for scope in [n for n in ast.walk(fn) if isinstance(n, ast.FunctionDef)]:
+        captured = set()
+        for n in _scope_nodes(scope):
+            if isinstance(n, (ast.FunctionDef, ast.Lambda, ast.ListComp, ast.SetComp, ast.DictComp, ast.GeneratorExp)) and n is not scope:
+                captured |= _names(n)
+        in_loop = set()
+        for n in ast.walk(scope):
+            if isinstance(n, (ast.For, ast.While)):
+                for m in ast.walk(n):
+                    in_loop.add(id(m))
+        order = []
+
+        def dfs(n):
+            if isinstance(n, ast.Name):
+                order.append(n)
+            for c in ast.iter_child_nodes(n):
+                dfs(c)
+        for st in scope.body:
+            dfs(st)
+        for owner, fld in _scope_blocks(scope):
+            body = getattr(owner, fld)
+            for st in list(body):
+                if not (isinstance(st, ast.Assign) and len(st.targets) == 1 and isinstance(st.targets[0], ast.Name)
+                        and isinstance(st.value, ast.Name)) or id(st) in in_loop:
+                    continue
+                x, y = st.targets[0].id, st.value.id
+                if x == y or x in captured or y in captured:
+                    continue
+                pos = next(i for i, n in enumerate(order) if n is st.value)
+                if any(n.id == x for n in order[:pos] if n is not st.targets[0]) or any(n.id == y for n in order[pos + 1:]):
+                    continue
+                for n in order[pos + 1:]:
+                    if n.id == x:
+                        n.id = y
+                body.remove(st)
+                if not body:
+                    body.append(ast.Pass())
+                order = [n for n in order if n is not st.value and n is not st.targets[0]]
                 changed = True
     return changed
 
@@ -2782,6 +3038,7 @@ def canonical(fn, helpers, sigs=None, cls=None):
                 setattr(owner, fld, keep or [ast.Pass()])
         strip(f)
         expand_star_tuples(f)
+        takeover_copies(f)
     _Idioms().visit(f)
     ast.fix_missing_locations(f)
     control_flow(f)
@@ -2789,7 +3046,9 @@ def canonical(fn, helpers, sigs=None, cls=None):
     split_tuples(f)
     split_self_referential_stores(f)
     expand_comprehensions(f)
+    unroll_literal_loops(f)
     networkx_bulk_calls(f)
+    fuse_list_loops(f)
     split_tuples(f)
     rename_apart(f)
     mapping_loops(f)
@@ -2799,7 +3058,7 @@ def canonical(fn, helpers, sigs=None, cls=None):
         b = propagate(f)
         c = forward_single_use(f)
         d = propagate_single_assignment_copies(f)
-        e = merge_copies(f) | coalesce_copies(f)
+        e = merge_copies(f) | coalesce_copies(f) | takeover_copies(f)
         if not (a or b or c or d or e):
             break
     expand_star_tuples(f)
